@@ -52,7 +52,7 @@ impl Check for C16 {
     }
     fn runs(&self, tier: Tier) -> u64 {
         match tier {
-            Tier::Quick => 150_000,
+            Tier::Quick => 500_000,
             Tier::Thorough => 8_000_000,
         }
     }
